@@ -123,7 +123,7 @@ class Block:
     def __init__(self, kind, header):
         self.kind = kind          # 'fn' | 'item'
         self.header = header
-        self.d = {'attr': [], 'rw': [], 'loop': {}, 'closure': {}, 'props': None, 'as': None, 'sig': None, 'spec': '',
+        self.d = {'attr': [], 'rw': [], 'loop': {}, 'closure': {}, 'props': None, 'as': None, 'bodyof': None, 'sig': None, 'spec': '',
                   'nocanary': False, 'derive': None, 'desc': ''}
 
 
@@ -207,6 +207,13 @@ def build(unit_name, outdir, global_rw=()):
             cur.d['attr'].append(arg)
         elif key == 'as':
             cur.d['as'] = arg
+        elif key == 'bodyof':
+            # `//@bodyof closure N`: the function emitted is the BODY OF THE N-th CLOSURE of the named function, verbatim,
+            # under the signature given by //@sig (closures with `&mut` parameters cannot be verified in place)
+            mm = re.match(r'closure\s+(\d+)$', arg)
+            if not mm:
+                raise UnitError('%s: bad //@bodyof %s' % (tpath, arg))
+            cur.d['bodyof'] = int(mm.group(1))
         elif key == 'props':
             cur.d['props'] = arg.split()
         elif key == 'desc':
@@ -508,6 +515,15 @@ def emit_fn(b, out, meta, unit_rw, unit_name):
     rel, ctx, name = b.header
     f = srcfile(rel).find_fn(ctx, name)
     body = f['body']
+    if b.d['bodyof']:
+        cls = find_closures(mask(body))
+        n = b.d['bodyof']
+        if n > len(cls):
+            raise LostAnchor('%s::%s: closure #%d not found (%d closures in body)' % (rel, name, n, len(cls)))
+        cb = body[cls[n - 1][2]:cls[n - 1][3]].strip()
+        body = cb if cb.startswith('{') else '{ ' + cb + ' }'
+        if not (b.d['sig'] and b.d['as']):
+            raise UnitError('//@bodyof needs //@sig and //@as')
     # loop clauses first (positions refer to the unrewritten body)
     edits = []   # (start, end, replacement) on the unrewritten body
     if b.d['loop']:
